@@ -629,25 +629,25 @@ const EXPR_KINDS: &[(&str, &str, &str)] = &[
 /// span-stack contexts: (name, main template with STMT on its own line(s), other templates).
 /// `PRE` defines the helper macro; the statement never shares a line with the surrounding construct.
 const SPAN_CONTEXTS: &[(&str, &str, &str)] = &[
-    ("top", "PRE\nline\n{{ x }}\nSTMT\nend", ""),
-    ("callbody", "PRE\n{% macro m() %}[{{ caller() }}]{% endmacro %}\n{% call m() %}\n  a\nSTMT\n{% endcall %}", ""),
-    ("callbody_args", "PRE\n{% macro m(a, b=1) %}[{{ caller() }}]{% endmacro %}\n{% call m(x, b=lst[0]) %}\n\nSTMT\n{% endcall %}", ""),
-    ("after_ns", "PRE\n{% set ns = namespace() %}\n{% set ns.mode = 1 %}\ntext\n\nSTMT\nend", ""),
-    ("after_ns_in_for", "PRE\n{% set ns = namespace() %}\n{% for a in [1] %}\n{% set ns.mode = a %}\ntext\nSTMT\n{% endfor %}", ""),
-    ("macro", "PRE\n{% macro w() %}\n a\nSTMT\n{% endmacro %}\nx\n{{ w() }}", ""),
-    ("macro_ns", "PRE\n{% macro w() %}\n{% set ns = namespace() %}{% set ns.k = 2 %}\n a\nSTMT\n{% endmacro %}\nx\n{{ w() }}", ""),
-    ("filterblock", "PRE\n{% filter upper %}\nabc\nSTMT\n{% endfilter %}", ""),
-    ("setblock", "PRE\n{% set cap %}\nabc\nSTMT\n{% endset %}", ""),
-    ("for", "PRE\n{% for a in lst %}\n{{ a }}\nSTMT\n{% endfor %}", ""),
-    ("for_filter", "PRE\n{% for a in lst if a > 0 %}\n{{ a }}\nSTMT\n{% endfor %}", ""),
-    ("if", "PRE\n{% if x %}\nyes\nSTMT\n{% endif %}", ""),
-    ("else", "PRE\n{% if not x %}\n{% else %}\nno\nSTMT\n{% endif %}", ""),
-    ("with", "PRE\n{% with q = 1 %}\n{{ q }}\nSTMT\n{% endwith %}", ""),
-    ("autoescape", "PRE\n{% autoescape true %}\nabc\nSTMT\n{% endautoescape %}", ""),
-    ("block", "PRE\n{% block b %}\nabc\nSTMT\n{% endblock %}", ""),
-    ("child_block", "{% extends \"spbase\" %}\nPRE\n{% block b %}\nabc\nSTMT\n{% endblock %}", ""),
-    ("include", "i1\nPRE\nSTMT\ni3", "a\n{% include \"THIS\" %}\nb"),
-    ("after_print", "PRE\n{{ d.a }} {{ lst[0] }} {{ x|string }}\n{{ mkbad() }}\nSTMT", ""),
+    ("top", "PRE\nline\n{{ x }}\n^^STMT\nend", ""),
+    ("callbody", "PRE\n{% macro m() %}[{{ caller() }}]{% endmacro %}\n{% call m() %}\n  a\n^^STMT\n{% endcall %}", ""),
+    ("callbody_args", "PRE\n{% macro m(a, b=1) %}[{{ caller() }}]{% endmacro %}\n{% call m(x, b=lst[0]) %}\n\n^^STMT\n{% endcall %}", ""),
+    ("after_ns", "PRE\n{% set ns = namespace() %}\n{% set ns.mode = 1 %}\ntext\n\n^^STMT\nend", ""),
+    ("after_ns_in_for", "PRE\n{% set ns = namespace() %}\n{% for a in [1] %}\n{% set ns.mode = a %}\ntext\n^^STMT\n{% endfor %}", ""),
+    ("macro", "PRE\n{% macro w() %}\n a\n^^STMT\n{% endmacro %}\nx\n{{ w() }}", ""),
+    ("macro_ns", "PRE\n{% macro w() %}\n{% set ns = namespace() %}{% set ns.k = 2 %}\n a\n^^STMT\n{% endmacro %}\nx\n{{ w() }}", ""),
+    ("filterblock", "PRE\n{% filter upper %}\nabc\n^^STMT\n{% endfilter %}", ""),
+    ("setblock", "PRE\n{% set cap %}\nabc\n^^STMT\n{% endset %}", ""),
+    ("for", "PRE\n{% for a in lst %}\n{{ a }}\n^^STMT\n{% endfor %}", ""),
+    ("for_filter", "PRE\n{% for a in lst if a > 0 %}\n{{ a }}\n^^STMT\n{% endfor %}", ""),
+    ("if", "PRE\n{% if x %}\nyes\n^^STMT\n{% endif %}", ""),
+    ("else", "PRE\n{% if not x %}\n{% else %}\nno\n^^STMT\n{% endif %}", ""),
+    ("with", "PRE\n{% with q = 1 %}\n{{ q }}\n^^STMT\n{% endwith %}", ""),
+    ("autoescape", "PRE\n{% autoescape true %}\nabc\n^^STMT\n{% endautoescape %}", ""),
+    ("block", "PRE\n{% block b %}\nabc\n^^STMT\n{% endblock %}", ""),
+    ("child_block", "{% extends \"spbase\" %}\nPRE\n{% block b %}\nabc\n^^STMT\n{% endblock %}", ""),
+    ("include", "i1\nPRE\n^^STMT\ni3", "a\n{% include \"THIS\" %}\nb"),
+    ("after_print", "PRE\n{{ d.a }} {{ lst[0] }} {{ x|string }}\n{{ mkbad() }}\n^^STMT", ""),
 ];
 
 const SP_PRELUDE: &str = "{% macro refu(v) %}REFU{{ \"SED\" }}{% if false %}{{ caller(1) }}{% endif %}{% endmacro %}";
@@ -1468,7 +1468,10 @@ fn variants(c: &Case, idx: usize, tier: &str) -> Vec<(&'static str, usize, usize
                 } else if c.id.starts_with("sl_") {
                     REDUCED.contains(&(vi, hi)) && (cfg != "x" || vi <= 1)
                 } else if c.class != "planted" {
-                    cfg == "d" || (is_print && matches!(cfg, "p" | "n" | "a")) || REDUCED.contains(&(vi, hi))
+                    cfg == "d"
+                        || (is_print && matches!(cfg, "p" | "n" | "a"))
+                        || (matches!(cfg, "p" | "n" | "x") && REDUCED.contains(&(vi, hi)))
+                        || matches!((vi, hi), (0, 0) | (1, 0) | (3, 2) | (5, 1))
                 } else if cfg != "d" {
                     matches!((vi, hi), (0, 0) | (1, 1) | (3, 2)) || (idx % 8 == 0 && REDUCED.contains(&(vi, hi)))
                 } else if big {
